@@ -86,7 +86,14 @@ def modelVerdict (verdict : String) (f : List String) : Option String := do
     let segs := (List.range n).map fun i => if i = 1 then ph d1 else ph []
     return render (decodeEbb (oracle []) (fun _ => wfEcho) (fun _ => exp) skip segs)
   | "byron" =>
-    if kv f "parts" ≠ some "y" then return "err:decode"
+    if kv f "parts" ≠ some "y" then
+      -- the harness could not see the [txs, ssc, dlg, upd] shape (e.g. a null body): with the skip
+      -- flag the verdict is the structural one; otherwise a rejection is echoed, an acceptance is not
+      -- something the model can justify
+      if skip then
+        return render (decodeByron (oracle []) (fun _ => []) wfEcho none true true
+          { txs := [], ssc := [], dlg := [], upd := [] })
+      else return (if cls = "ok" then "err:decode" else cls)
     let cnt ← (kv f "cnt").bind parseNat?
     let g (k : String) : Option Bytes := (kv f k).bind dig?
     let mrD ← g "mr"; let witD ← g "wit"; let dlgD ← g "dlg"; let updD ← g "upd"
@@ -107,10 +114,41 @@ def modelVerdict (verdict : String) (f : List String) : Option String := do
     return render (decodeByron P (fun _ => mrD) wfEcho expected sscOK skip body)
   | _ => none
 
+def pairClass (a b : String) : String :=
+  match decide (implClass a = "ok"), decide (implClass b = "ok") with
+  | true, true => "both-ok"
+  | true, false => "a-only"
+  | false, true => "b-only"
+  | false, false => "neither"
+
+/-- `<class> A=<verdictA> B=<verdictB>` → (verdictA, verdictB) -/
+def pairVerdicts (v : String) : Option (String × String) :=
+  match v.splitOn " B=" with
+  | [l, b] => match l.splitOn " A=" with
+    | [_, a] => some (a, b)
+    | _ => none
+  | _ => none
+
+/-- pair op: the property's own shape as the spec — same header bytes, different committed body
+    content, validation on ⇒ not both accepted. -/
+def pairSpec (pf : List String) : String :=
+  if kv pf "skip" = some "n" ∧ kv pf "samehdr" = some "y" ∧ kv pf "bodydiff" = some "y" then
+    "a-only*||b-only*||neither*"
+  else "*"
+
 def handle (line : String) : Out :=
   match line.splitOn "\t" with
   | [_op, impl] =>
     match impl.splitOn " ;; " with
+    | [v, pf, fa, fb] =>
+      let rest := " ;; " ++ pf ++ " ;; " ++ fa ++ " ;; " ++ fb
+      match pairVerdicts v with
+      | some (va, vb) =>
+        match modelVerdict va (tokens fa), modelVerdict vb (tokens fb) with
+        | some ma, some mb =>
+          { model := pairClass ma mb ++ " A=" ++ ma ++ " B=" ++ mb ++ rest, spec := pairSpec (tokens pf) }
+        | _, _ => { model := "bad-facts" ++ rest, spec := pairSpec (tokens pf) }
+      | none => { model := "bad-impl-output", spec := "*" }
     | [verdict, facts] =>
       let f := tokens facts
       match modelVerdict verdict f with
